@@ -3,7 +3,7 @@
 A case names its source as JSON:
   {"kind": "spec", "spec": ModelSpec}                      sigmas already written into the spec ('s' keys, covout 'sigma')
   {"kind": "lib", "name": "udt"|"tb_simple", "progs": bool, "start_off": k,
-   "par": [[i, s], ...], "prog": [[i, attr, s], ...], "covout": [[i, sigma, imp], ...]}
+   "par": [[i, s], ...], "prog": [[i, attr, s], ...], "covout": [[i, sigma, imp], ...], "init": [[i, z], ...]}
      s = None | 0.0 | {"rel": r} (sigma = r * largest |value| of the series); indices are taken modulo the number of
      candidates listed in a fixed order, so a case is fully determined by its JSON and the library file.
 """
@@ -15,7 +15,11 @@ from .runner import Discard, HarnessError
 
 RELS = [0.001, 0.01, 0.05]
 ABS_COVOUT = [0.001, 0.01, 0.03]
-UNC_CLASSES = ["none", "zero", "zero", "par", "par", "par", "par", "prog", "prog", "both", "both", "both"]
+UNC_CLASSES = ["none", "zero", "zero", "par", "par", "par", "par", "prog", "prog", "both", "both", "both", "init", "init", "init"]
+# "init": sigma on initial stocks, so large that a fraction of the draws is rejected (BadInitialization -> resampled).
+# sigma = (distance of the value to the nearest value that makes the initialisation inconsistent) / z, z = normal quantile
+INIT_Z = [0.8416, 0.5244, 0.2533]  # one-sided rejection probability 0.2, 0.3, 0.4
+LIB_INIT_Z = [1.2816, 0.8416, 0.6745]  # nested library characteristics are bounded on both sides: rejection probability up to 0.2, 0.4, 0.5
 
 _P = {"fmt": None, "ts": None, "fn": None, "db": True, "min": None, "max": None, "tgt": False, "timed": False, "deriv": False}
 
@@ -114,6 +118,23 @@ def spec_entries(spec):
     return out
 
 
+def init_entries(spec):
+    """databook entries of ordinary compartments (they initialise the model one-to-one: stored initial size = value + delta; a
+    negative size is rejected with BadInitialization): list of (dict, value)"""
+    kinds = {c["name"]: c for c in spec["comps"]}
+    out = []
+    for q in sorted(spec["data"]["q"]):
+        c = kinds.get(q)
+        if c is None or c["kind"] != "ord" or not c.get("db"):
+            continue
+        for pop in sorted(spec["data"]["q"][q]):
+            d = spec["data"]["q"][q][pop]
+            v = _vals(d)
+            if len(v) == 1 and v[0] >= 0:
+                out.append((d, float(v[0])))
+    return out
+
+
 def prog_entries(spec):
     out = []
     for p in spec["progs"]["progs"]:
@@ -133,9 +154,26 @@ def assign_sigmas(draw, spec, unc):
     ents = spec_entries(spec)
     for _, d, _, _ in ents:
         d.pop("s", None)
+    inits = init_entries(spec)
+    for d, _ in inits:
+        d.pop("s", None)
     zero_set = False
     low = [None, None, 0.0] if unc != "none" else [None]
     pos = []
+    init_ids = set()
+    if unc == "init":
+        if not inits:
+            unc = "par"
+        else:
+            i = draw(st.integers(0, len(inits) - 1))
+            d, v = inits[i]
+            d["s"] = (v / draw(st.sampled_from(INIT_Z))) if v > 0 else 1.0  # value 0: half of the draws are negative
+            init_ids.add(id(d))
+            rest = [j for j in range(len(inits)) if j != i and inits[j][1] > 0]
+            if v > 0 and rest and draw(st.booleans()):
+                d2, v2 = inits[draw(st.sampled_from(rest))]
+                d2["s"] = v2 / INIT_Z[0]
+                init_ids.add(id(d2))
     if unc in ("par", "both"):
         eff = [i for i, e in enumerate(ents) if e[3]]
         cands = eff if eff else [i for i, e in enumerate(ents) if e[0] != "comp"]
@@ -149,6 +187,8 @@ def assign_sigmas(draw, spec, unc):
             if others and draw(st.integers(0, 4)) == 0:
                 pos.append(draw(st.sampled_from(others)))  # occasionally a compartment size / transfer / clipped parameter as well
     for i, (kind, d, scale, eff) in enumerate(ents):
+        if id(d) in init_ids:
+            continue
         if i in pos:
             d["s"] = draw(st.sampled_from(RELS)) * scale
         else:
@@ -195,6 +235,7 @@ def spec_unc(spec):
     """uncertainty actually present in a spec: (parset_positive, progset_positive, any_zero, positive on an effective parset entry)"""
     ppos = pz = gpos = False
     eff_par = any(eff and (d.get("s") or 0) > 0 for _, d, _, eff in spec_entries(spec))
+    eff_par = eff_par or any((d.get("s") or 0) > 0 for d, _ in init_entries(spec))  # initial size of an ordinary compartment = value + delta
     data = spec["data"]
     ds = [d for bypop in data["q"].values() for d in bypop.values()] + [e for tr in data.get("tr") or [] for e in tr["e"].values()]
     for d in ds:
@@ -259,7 +300,8 @@ def materialise(src):
         ppos, gpos, zero, eff_par = spec_unc(spec)
         explicit = bool(spec.get("progs")) and any(c.get("imp") for c in spec["progs"]["covouts"])
         explicit_sigma = bool(spec.get("progs")) and any(c.get("imp") and c.get("sigma", 0.0) is not None for c in spec["progs"]["covouts"])
-        return {"P": b["P"], "ps": b["ps"], "pg": b["progset"], "ins": b["instructions"], "ppos": ppos, "gpos": gpos, "zero": zero, "explicit": explicit, "explicit_sigma": explicit_sigma, "eff_par": eff_par}
+        big_init = any((d.get("s") or 0) > 0.5 * max(v, 1e-300) for d, v in init_entries(spec))
+        return {"P": b["P"], "ps": b["ps"], "pg": b["progset"], "ins": b["instructions"], "ppos": ppos, "gpos": gpos, "zero": zero, "explicit": explicit, "explicit_sigma": explicit_sigma, "eff_par": eff_par, "init": big_init}
     P = _lib(src["name"])
     ps = P.parsets[0]
     ppos = gpos = zero = explicit = explicit_sigma = eff_par = False
@@ -278,6 +320,17 @@ def materialise(src):
             # one-to-one visible in the results: untargeted data parameter, positive values far (>= 20 sigma) above a lower limit of 0
             if ts.sigma > 0 and name not in targeted and (hi is None or hi != hi) and (lo is None or lo != lo or lo <= 0) and min(vals) > 0:
                 eff_par = True
+    # initial stocks (compartment / characteristic databook entries): sigma = distance to the nearest other initial stock (or to 0) / z
+    big_init = False
+    icands = sorted((par.name, pop) for par in ps.all_pars() if par.name not in fpars and par.name in ps.pars for pop, ts in par.ts.items() if ts.has_data and len(ts.vals) >= 1)
+    for i, z in src.get("init", []):
+        name, pop = icands[i % len(icands)]
+        ts = ps.pars[name].ts[pop]
+        v = float(ts.vals[0])
+        others = [float(ps.pars[n2].ts[p2].vals[0]) for n2, p2 in icands if p2 == pop and n2 != name] + [0.0]
+        gap = min(abs(v - o) for o in others if o != v) if any(o != v for o in others) else max(abs(v), 1.0)
+        ts.sigma = gap / float(z)
+        ppos = eff_par = big_init = True  # the stored initial value of the quantity is value + delta
     pg = ins = None
     if src.get("progs"):
         pg = P.progsets[0]
@@ -303,7 +356,7 @@ def materialise(src):
             pg.covouts[key] = at.Covout(par=old.par, pop=old.pop, progs=dict(old.progs), cov_interaction=old.cov_interaction, imp_interaction=imps, uncertainty=sigma, baseline=old.baseline)
             if sigma is not None:
                 gpos, zero = (gpos or sigma > 0), (zero or sigma == 0)
-    return {"P": P, "ps": ps, "pg": pg, "ins": ins, "ppos": ppos, "gpos": gpos, "zero": zero, "explicit": explicit, "explicit_sigma": explicit_sigma, "eff_par": eff_par}
+    return {"P": P, "ps": ps, "pg": pg, "ins": ins, "ppos": ppos, "gpos": gpos, "zero": zero, "explicit": explicit, "explicit_sigma": explicit_sigma, "eff_par": eff_par, "init": big_init}
 
 
 def progset_inputs_digest(pg):
@@ -328,6 +381,9 @@ def lib_sources(draw, unc):
     name = draw(st.sampled_from(LIBS))
     progs = unc in ("prog", "both") or draw(st.booleans())
     src = {"kind": "lib", "name": name, "progs": progs, "start_off": draw(st.sampled_from([0, 1, 2])), "par": [], "prog": [], "covout": []}
+    if unc == "init":
+        src["init"] = [[draw(st.integers(0, 4)), draw(st.sampled_from(LIB_INIT_Z))]]
+        return src
     low = [None, 0.0] if unc != "none" else [None]
     sig = st.sampled_from(RELS).map(lambda r: {"rel": r})
     npar = 6
